@@ -62,11 +62,19 @@ class KexNistp256:
             return
         self.Q_C = self.P.public_key()
 
+    def _load_peer_point(self, data):
+        try:
+            return ec.EllipticCurvePublicKey.from_encoded_point(
+                self.curve, data
+            )
+        except ValueError as e:
+            raise SSHException(
+                "invalid ECDH public key from peer: {}".format(e)
+            )
+
     def _parse_kexecdh_init(self, m):
         Q_C_bytes = m.get_string()
-        self.Q_C = ec.EllipticCurvePublicKey.from_encoded_point(
-            self.curve, Q_C_bytes
-        )
+        self.Q_C = self._load_peer_point(Q_C_bytes)
         K_S = self.transport.get_server_key().asbytes()
         K = self.P.exchange(ec.ECDH(), self.Q_C)
         K = int(hexlify(K), 16)
@@ -110,9 +118,7 @@ class KexNistp256:
     def _parse_kexecdh_reply(self, m):
         K_S = m.get_string()
         Q_S_bytes = m.get_string()
-        self.Q_S = ec.EllipticCurvePublicKey.from_encoded_point(
-            self.curve, Q_S_bytes
-        )
+        self.Q_S = self._load_peer_point(Q_S_bytes)
         sig = m.get_binary()
         K = self.P.exchange(ec.ECDH(), self.Q_S)
         K = int(hexlify(K), 16)
